@@ -81,7 +81,7 @@ func checkEnforceGate(r *Run, p *Prog, enforce, allow, retrieve *FuncNode) {
 	var path []string
 	n := 0
 	for _, ex := range c.Exits() {
-		if ex.Return == nil || len(ex.Return.Results) != 1 || !isNilIdent(enforce, ex.Return.Results[0]) {
+		if ex.Return == nil || !mayReturnNilError(enforce, ex.Return) {
 			continue
 		}
 		n++
@@ -178,7 +178,16 @@ func checkAllowCover(r *Run, p *Prog, fn *FuncNode) {
 	}
 	_ = visFromBody
 	r.ObPath("C18.R2.cover", "allowRequest returns true only after the loop over req.Objects has finished", p.Position(fn.Pos()), okA && nTrue > 0, "", pathA)
-	// (b) the per-object flag
+	// (b) the per-object decision. Roles of values: the request, the requested object (the
+	// loop variable) and the requested action (req.Action); a package-local helper receives
+	// roles through its parameters.
+	roles := cvRoles{req: "req", obj: "obj"}
+	needs := []struct{ key, name string }{
+		{"action", "the policy lists the requested action"},
+		{"type", "policy object type == requested type"},
+		{"scope", "policy object is type-wide or its key == requested key"},
+	}
+	// an optional per-object flag (declared false at the top of the iteration)
 	var flag types.Object
 	for _, st := range loop.Body.List {
 		if as, ok := st.(*ast.AssignStmt); ok && len(as.Lhs) == 1 && len(as.Rhs) == 1 {
@@ -205,33 +214,108 @@ func checkAllowCover(r *Run, p *Prog, fn *FuncNode) {
 			r.Ob("C18.R2.cover", "the per-object flag is declared false at the start of every iteration", posOf(p, loop), false, "the flag "+outer.Name()+" is declared outside the loop over the requested objects: once one object is covered every later object passes")
 			return
 		}
-		r.Undecide("C18.R2: the loop body of allowRequest does not start with '<flag> := false' (unknown decision shape)")
-		return
+	} else {
+		r.Ob("C18.R2.cover", "the per-object flag is declared false at the start of every iteration", posOf(p, loop.Body.List[0]), true, "")
 	}
-	r.Ob("C18.R2.cover", "the per-object flag is declared false at the start of every iteration", posOf(p, loop.Body.List[0]), true, "")
-	// an iteration hands over (back edge to the loop head) only across edges establishing flag == true
-	flagTrue := c.EdgesEstablishing(func(atom ast.Expr, val bool) bool { return objOf(fn, atom) == flag && val })
-	_, vis := c.ReachAvoiding([]Point{{body, -1}}, flagTrue, nil)
-	okB := len(flagTrue) > 0
-	var pathB []string
-	for pt := range vis {
-		if pt.B == head || pt.B == done {
-			okB = false
-			pathB = []string{"the next object (or the end of the loop) is reachable without the flag having been tested true"}
-		}
-	}
-	r.ObPath("C18.R2.cover", "an object is passed over only when its flag is set", posOf(p, loop), okB, "", pathB)
-	// (c) every 'flag = true' lies behind action membership, type equality and (type-wide or key equality)
-	isActionAtom := func(atom ast.Expr) bool {
-		check := func(call *ast.CallExpr) bool {
-			f := CalleeFunc(fn, call)
-			if f == nil || f.Name() != "Contains" || len(call.Args) != 2 {
+	var sets []Point
+	if flag != nil {
+		sets = c.NodesWhere(func(n ast.Node) bool {
+			as, ok := n.(*ast.AssignStmt)
+			if !ok || len(as.Lhs) != 1 || len(as.Rhs) != 1 || objOf(fn, as.Lhs[0]) != flag {
 				return false
 			}
-			fa, ok := isFieldOfObj(fn, call.Args[1], req)
-			return ok && fa == "Action" && strings.HasSuffix(types.ExprString(call.Args[0]), ".Actions")
+			id, ok := ast.Unparen(as.Rhs[0]).(*ast.Ident)
+			return !(ok && id.Name == "false")
+		})
+		for i, sp := range sets {
+			as := sp.B.Nodes[sp.I].(*ast.AssignStmt)
+			if id, ok := ast.Unparen(as.Rhs[0]).(*ast.Ident); !ok || id.Name != "true" {
+				r.Ob("C18.R2.cover", fmt.Sprintf("flag assignment #%d sets the constant true", i+1), posOf(p, as), false, "assigned "+types.ExprString(as.Rhs[0])+" (unknown decision shape)")
+				return
+			}
 		}
-		if call, ok := ast.Unparen(atom).(*ast.CallExpr); ok {
+	}
+	for _, need := range needs {
+		edges := cvNeedEdges(p, fn, roles, need.key, 0)
+		// the flag's true edge stands for the need when every assignment of true lies behind it
+		if flag != nil && len(sets) > 0 {
+			guarded := len(edges) > 0
+			if guarded {
+				_, v := c.ReachAvoiding([]Point{{body, -1}}, edges, nil)
+				for _, sp := range sets {
+					if v[sp] {
+						guarded = false
+					}
+				}
+			}
+			if guarded {
+				for e := range c.EdgesEstablishing(func(atom ast.Expr, val bool) bool { return objOf(fn, atom) == flag && val }) {
+					edges[e] = true
+				}
+			}
+		}
+		okN := len(edges) > 0
+		var pathN []string
+		if okN {
+			q, vis := c.ReachAvoiding([]Point{{body, -1}}, edges, nil)
+			for pt := range vis {
+				if pt.B == head || pt.B == done {
+					okN = false
+					pathN = q.PathTo(pt)
+				}
+			}
+		}
+		r.ObPath("C18.R2.cover", "an object is passed over only across a test establishing: "+need.name, posOf(p, loop), okN,
+			"the next requested object (or the end of the loop, and with it 'return true') is reachable without this test having succeeded for the current object", pathN)
+	}
+}
+
+// cvRoles maps values to their role in the cover decision: "req", "obj" (the requested
+// object), "action".
+type cvRoles map[types.Object]string
+
+func (ro cvRoles) of(fn *FuncNode, e ast.Expr) string {
+	e = ast.Unparen(e)
+	if o := objOf(fn, e); o != nil {
+		if r, ok := ro[o]; ok {
+			return r
+		}
+	}
+	if sel, ok := e.(*ast.SelectorExpr); ok && sel.Sel.Name == "Action" && ro.of(fn, sel.X) == "req" {
+		return "action"
+	}
+	return ""
+}
+
+// cvAtom: does atom (taken with truth value val) establish the need directly?
+func cvAtom(fn *FuncNode, ro cvRoles, need string, atom ast.Expr, val bool) bool {
+	atom = ast.Unparen(atom)
+	eqOn := func(field string) bool {
+		be, ok := atom.(*ast.BinaryExpr)
+		if !ok || !(be.Op == token.EQL && val || be.Op == token.NEQ && !val) {
+			return false
+		}
+		side := func(x ast.Expr) (string, bool) {
+			sel, ok := ast.Unparen(x).(*ast.SelectorExpr)
+			if !ok || sel.Sel.Name != field {
+				return "", false
+			}
+			return ro.of(fn, sel.X), true
+		}
+		rx, okx := side(be.X)
+		ry, oky := side(be.Y)
+		return okx && oky && ((rx == "obj") != (ry == "obj"))
+	}
+	switch need {
+	case "action":
+		check := func(call *ast.CallExpr) bool {
+			f := CalleeFunc(fn, call)
+			return f != nil && f.Name() == "Contains" && len(call.Args) == 2 && ro.of(fn, call.Args[1]) == "action" && strings.HasSuffix(types.ExprString(call.Args[0]), ".Actions")
+		}
+		if !val {
+			return false
+		}
+		if call, ok := atom.(*ast.CallExpr); ok {
 			return check(call)
 		}
 		if o := objOf(fn, atom); o != nil {
@@ -242,99 +326,91 @@ func checkAllowCover(r *Run, p *Prog, fn *FuncNode) {
 			}
 		}
 		return false
-	}
-	eqOnIn := func(fn *FuncNode, obj types.Object, atom ast.Expr, field string, val bool) bool {
-		be, ok := ast.Unparen(atom).(*ast.BinaryExpr)
-		if !ok || !(be.Op == token.EQL && val || be.Op == token.NEQ && !val) {
-			return false
-		}
-		fx, okx := isFieldOfObj(fn, be.X, obj)
-		fy, oky := isFieldOfObj(fn, be.Y, obj)
-		other := be.X
-		if okx && fx == field {
-			other = be.Y
-		} else if oky && fy == field {
-			other = be.X
-		} else {
-			return false
-		}
-		s, ok := ast.Unparen(other).(*ast.SelectorExpr)
-		return ok && s.Sel.Name == field && objOf(fn, s.X) != obj
-	}
-	isTypeWideIn := func(fn *FuncNode, atom ast.Expr, val bool) bool {
-		call, ok := ast.Unparen(atom).(*ast.CallExpr)
-		if !ok || !val {
-			return false
-		}
-		f := CalleeFunc(fn, call)
-		return f != nil && f.Name() == "IsType"
-	}
-	typePred := func(fn *FuncNode, obj types.Object, a ast.Expr, v bool) bool { return eqOnIn(fn, obj, a, "Type", v) }
-	scopePred := func(fn *FuncNode, obj types.Object, a ast.Expr, v bool) bool {
-		return isTypeWideIn(fn, a, v) || eqOnIn(fn, obj, a, "Key", v)
-	}
-	// a test extracted into a package-local predicate over the requested object counts when
-	// every true result of the predicate lies behind the test
-	viaHelper := func(pred objAtomPred) func(a ast.Expr, v bool) bool {
-		return func(a ast.Expr, v bool) bool {
-			if pred(fn, obj, a, v) {
-				return true
-			}
-			call, ok := ast.Unparen(a).(*ast.CallExpr)
-			if !ok || !v {
-				return false
-			}
-			g := p.ByObj[CalleeFunc(fn, call)]
-			if g == nil || g.Body == nil {
-				return false
-			}
-			for i, arg := range call.Args {
-				if objOf(fn, arg) == obj {
-					if po := paramObj(g, i); po != nil {
-						return predicateEstablishes(p, g, po, pred)
-					}
+	case "type":
+		return eqOn("Type")
+	case "scope":
+		if call, ok := atom.(*ast.CallExpr); ok && val {
+			if f := CalleeFunc(fn, call); f != nil && f.Name() == "IsType" {
+				if sel, ok := ast.Unparen(call.Fun).(*ast.SelectorExpr); ok && ro.of(fn, sel.X) != "obj" {
+					return true
 				}
 			}
+		}
+		return eqOn("Key")
+	}
+	return false
+}
+
+// cvAtomOrHelper: the atom establishes the need directly, or it is a true call of a
+// package-local boolean function every true result of which lies behind the need.
+func cvAtomOrHelper(p *Prog, fn *FuncNode, ro cvRoles, need string, depth int) func(atom ast.Expr, val bool) bool {
+	return func(atom ast.Expr, val bool) bool {
+		if cvAtom(fn, ro, need, atom, val) {
+			return true
+		}
+		call, ok := ast.Unparen(atom).(*ast.CallExpr)
+		if !ok || !val || depth >= 3 {
 			return false
 		}
-	}
-	action := c.EdgesEstablishing(func(a ast.Expr, v bool) bool { return v && isActionAtom(a) })
-	typeEq := c.EdgesEstablishing(viaHelper(typePred))
-	scope := c.EdgesEstablishing(viaHelper(scopePred))
-	sets := c.NodesWhere(func(n ast.Node) bool {
-		as, ok := n.(*ast.AssignStmt)
-		if !ok || len(as.Lhs) != 1 || len(as.Rhs) != 1 || objOf(fn, as.Lhs[0]) != flag {
+		g := p.ByObj[CalleeFunc(fn, call)]
+		if g == nil || g.Body == nil || g.Pkg != fn.Pkg {
 			return false
 		}
-		id, ok := ast.Unparen(as.Rhs[0]).(*ast.Ident)
-		return !(ok && id.Name == "false")
-	})
-	if len(sets) == 0 {
-		r.Ob("C18.R2.cover", "the flag is set somewhere", p.Position(fn.Pos()), false, "no assignment sets the per-object flag")
-		return
+		sub := cvRoles{}
+		for i, a := range call.Args {
+			if role := ro.of(fn, a); role != "" {
+				if po := paramObj(g, i); po != nil {
+					sub[po] = role
+				}
+			}
+		}
+		if len(sub) == 0 {
+			return false
+		}
+		return cvTrueImplies(p, g, sub, need, depth+1)
 	}
-	for i, sp := range sets {
-		as := sp.B.Nodes[sp.I].(*ast.AssignStmt)
-		if id, ok := ast.Unparen(as.Rhs[0]).(*ast.Ident); !ok || id.Name != "true" {
-			r.Ob("C18.R2.cover", fmt.Sprintf("flag assignment #%d sets the constant true", i+1), posOf(p, as), false, "assigned "+types.ExprString(as.Rhs[0])+" (unknown decision shape)")
+}
+
+func cvNeedEdges(p *Prog, fn *FuncNode, ro cvRoles, need string, depth int) map[edge]bool {
+	c := p.CFG(fn)
+	at := cvAtomOrHelper(p, fn, ro, need, depth)
+	out := c.EdgesEstablishing(at)
+	// a disjunction all of whose alternatives establish the need establishes it on its
+	// true edge (IsType() || Key == Key)
+	for _, b := range c.G.Blocks {
+		if cond := Cond(b); cond != nil && exprImplies(cond, at) {
+			out[edge{b, 0}] = true
+		}
+	}
+	return out
+}
+
+// cvTrueImplies: every true result of the boolean function g lies behind the need.
+func cvTrueImplies(p *Prog, g *FuncNode, ro cvRoles, need string, depth int) bool {
+	sig, _ := g.Obj.Type().(*types.Signature)
+	if sig == nil || sig.Results().Len() != 1 {
+		return false
+	}
+	c := p.CFG(g)
+	edges := cvNeedEdges(p, g, ro, need, depth)
+	_, vis := c.ReachAvoiding([]Point{c.Entry()}, edges, nil)
+	at := cvAtomOrHelper(p, g, ro, need, depth)
+	for _, ex := range c.Exits() {
+		if ex.Return == nil || len(ex.Return.Results) != 1 {
+			return false
+		}
+		res := ex.Return.Results[0]
+		if id, ok := ast.Unparen(res).(*ast.Ident); ok && id.Name == "false" {
 			continue
 		}
-		var missing []string
-		for _, need := range []struct {
-			name  string
-			edges map[edge]bool
-		}{{"the policy lists the requested action", action}, {"policy object type == requested type", typeEq}, {"policy object is type-wide or its key == requested key", scope}} {
-			if len(need.edges) == 0 {
-				missing = append(missing, need.name+" (no such test)")
-				continue
-			}
-			_, v := c.ReachAvoiding([]Point{{body, -1}}, need.edges, nil)
-			if v[sp] {
-				missing = append(missing, need.name)
-			}
+		if !vis[ex.P] {
+			continue
 		}
-		r.Ob("C18.R2.cover", fmt.Sprintf("flag assignment #%d is behind action, type and scope tests", i+1), posOf(p, as), len(missing) == 0, "reachable without: "+strings.Join(missing, "; "))
+		if !exprImplies(res, at) {
+			return false
+		}
 	}
+	return true
 }
 
 type objAtomPred func(fn *FuncNode, obj types.Object, atom ast.Expr, val bool) bool
